@@ -9,17 +9,23 @@ build_v4 must be called with archived_override=<sdp_archived_streams> so that ka
 import numpy as np
 
 
-def product_value(ptype, n_chans, npol, nant):
+def product_value(ptype, n_chans, npol, nant, k=0):
+    """the single solution of stream number k (position in `tel`): gains 2^-(k+1), so that it tells where it is from"""
     if ptype == 'K':
         return np.zeros((npol, nant))
     if ptype == 'B':
         return np.full((n_chans, npol, nant), 2, np.complex64)
-    return np.full((npol, nant), 0.5, np.complex64)
+    return np.full((npol, nant), 0.5 ** (k + 1), np.complex64)
+
+
+def solution_offset(k):
+    """time of the solution of stream number k, in dumps after the first dump (distinct per stream)"""
+    return 1.0 + 0.25 * (k % 4)
 
 
 def streams_hook(tel, sync_time=1600000000.0, first_timestamp=123.0, int_time=2.0):
     def hook(ts, cbid, stream):
-        for st in tel:
+        for k, st in enumerate(tel):
             view = ts.view(st['name'])
             if st['type'] is not None:
                 view['stream_type'] = st['type']
@@ -37,6 +43,6 @@ def streams_hook(tel, sync_time=1600000000.0, first_timestamp=123.0, int_time=2.
                 where['targets'] = {'%s, radec, %d, -30' % (t, 10 * k): t for k, t in enumerate(st['targets'])}
             for ptype in st['types']:
                 cb.add('product_' + ptype,
-                       product_value(ptype, int(st['n_chans']), max(len(st['pols']), 1), max(len(st['ants']), 1)),
-                       ts=sync_time + first_timestamp + int_time * 1)
+                       product_value(ptype, int(st['n_chans']), max(len(st['pols']), 1), max(len(st['ants']), 1), k),
+                       ts=sync_time + first_timestamp + int_time * solution_offset(k))
     return hook
